@@ -657,6 +657,8 @@ def monitor_c03(se, stats):
             chans = [(c, int(f[2]))] if f[0] in ("NACK", "CHCLOSE", "CHCLOSEOK") else sorted([k for k in prev["chans"] if k[0] == c], reverse=True)
             if f[0] == "NACK" and not (f[4] == "1" and f[5] == "1"):
                 chans = []
+            if f[0] == "NACK" and chans and prev["chans"].get(chans[0], {"st": 1})["st"] != 1:
+                chans = []      # the channel is closing (the broker closed it): the frame is discarded, nothing returns
             if f[0] == "CHCLOSEOK" and prev["chans"].get(chans[0], {"st": 0})["st"] != 2:
                 chans = []
             if any(":channel.close(" in x or ":connection.close(" in x for x in st["frames"]):
